@@ -9,7 +9,9 @@ sequences of arbitrary values - classes of ==-equal elements of different types 
 repeat exactly or up to ==, list and tuple inputs - with a mapper whose result depends on the exact type and repr of its argument;
 oracle: the built-in map; every distinct input element must reach the mapper and nothing else may.  Maps over mapped sequences
 (inner and outer steps differing either way) followed by len / every index / slices / a third map; and mappers that carry the same
-__qualname__ in two different modules (plain functions and TaskGenerators) mapped over the same blocks in one store."""
+__qualname__ in two different modules (plain functions and TaskGenerators) mapped over the same blocks in one store.  Mapped values
+and reducer results that are None or falsy (0, '', (), [], False, 0.0) with associative reducers for which they are not neutral
+(first, last, a None-contagious concat, product, and, min, intersection), for mapreduce and reduce."""
 import functools
 import itertools
 
@@ -166,6 +168,59 @@ def run_typed(kind, exprs, ms, rs, as_tuple):
         exp = [(tkey(a), tkey(b)) for a, b in xs]
         keys = exp
     return exp, obs, list(CALLS), keys, blocks
+
+
+# ---- values that are None / falsy, reducers for which they are NOT neutral (all associative)
+TABLE = []
+
+
+def lookup(i):
+    CALLS.append(('lookup', i))
+    return TABLE[i]
+
+
+def first(a, b):
+    return a
+
+
+def last(a, b):
+    return b
+
+
+def strict_concat(a, b):
+    """'missing is contagious': None as soon as one side is None"""
+    return None if a is None or b is None else tuple(a) + tuple(b)
+
+
+def times(a, b):
+    return a * b
+
+
+def both(a, b):
+    return a and b
+
+
+def smaller(a, b):
+    return a if a <= b else b
+
+
+def common(a, b):
+    return tuple(x for x in a if x in b)
+
+
+tg_lookup = TaskGenerator(lookup)
+tg_first = TaskGenerator(first)
+tg_strict_concat = TaskGenerator(strict_concat)
+# reducer -> pool of value expressions it is defined on (each pool holds the reducer's absorbing / selected falsy values)
+FALSY_REDUCERS = [
+    (first, ['None', '0', "''", '()', '[]', 'False', '(1,)', '5', "'a'", '0.0', '(None,)']),
+    (last, ['None', '0', "''", '()', '[]', 'False', '(1,)', '5', "'a'", '0.0', '(None,)']),
+    (strict_concat, ['None', '()', '(1,)', '(2, 3)', '(0,)', '(None,)']),
+    (times, ['0', '1', '2', '-1', '3', 'False', 'True']),      # (ints only: 0 * -1 * 0.0 is 0.0 or -0.0 depending on the bracketing)
+    (both, ['True', 'False', '1', '0', "''", "'a'", 'None', '()', '(0,)']),
+    (smaller, ['()', '(0,)', '(1,)', '(0, 1)', '(2,)']),
+    (common, ['()', '(1,)', '(1, 2)', '(2, 1, 3)', '(3,)']),
+]
 
 
 def shift(x):
@@ -537,6 +592,56 @@ def run(ck):
                                   'every_element_mapped_once': calls_ok})
     ck.sample({'kind': 'map over map', **(mm_meta[len(mm_meta) // 2] if mm_meta else {})})
 
+    # ---- None / falsy mapped values and reducer results, with associative reducers for which they are not neutral
+    fl_cases, fl_meta = [], []
+    zids = {}
+    for it in range(ck.n(330, 3300)):
+        red, pool = FALSY_REDUCERS[it % len(FALSY_REDUCERS)]
+        n = ck.rng.randint(1, 9)
+        exprs = [ck.rng.choice(pool) for _ in range(n)]
+        if ck.rng.random() < 0.5:
+            exprs[ck.rng.randrange(n)] = pool[0]                   # the absorbing / falsy value somewhere
+        if it < 2 * len(FALSY_REDUCERS):
+            exprs[0 if it < len(FALSY_REDUCERS) else n - 1] = pool[0]
+        ms, rs = ck.rng.choice([1, 2, 3, 4]), ck.rng.choice([2, 3, 4])
+        op = ('mapreduce', 'reduce', 'mapreduce-taskgen')[it % 3]
+        if op == 'mapreduce-taskgen' and red not in (first, strict_concat):
+            op = 'mapreduce'
+        jugrun.fresh()
+        del CALLS[:]
+        TABLE[:] = [ev(e) for e in exprs]
+        vals = list(TABLE)
+        expect = obs_any(lambda: [functools.reduce(red, vals)])
+        if op == 'reduce':
+            t = jug.mapreduce.reduce(red, vals, reduce_step=rs)
+        elif op == 'mapreduce':
+            t = jug.mapreduce.mapreduce(red, lookup, list(range(n)), map_step=ms, reduce_step=rs)
+        else:
+            t = jug.mapreduce.mapreduce(tg_first if red is first else tg_strict_concat, tg_lookup, list(range(n)), map_step=ms, reduce_step=rs)
+        ran = obs_any(lambda: (jugrun.run_all_sequential(), [])[1])
+        got = obs_any(lambda: [value(t)])
+        same = ran[0] == 'ok' and got[0] == expect[0] and (got[0] == 'err' or (tkey(got[1][0]) == tkey(expect[1][0])))
+        calls_ok = op == 'reduce' or sorted(c[1] for c in CALLS) == list(range(n))
+        ck.distinct(('falsy', red.__name__, tuple(exprs), ms, rs, op), n >= 2)
+        ck.count('falsy:' + red.__name__)
+        if not same or not calls_ok:
+            ck.violation({'kind': 'impl-violation', 'what': '%s with None / falsy values differs from functools.reduce(map)' % op,
+                          'falsy': {'op': op, 'reducer': red.__name__, 'values': exprs, 'map_step': ms, 'reduce_step': rs},
+                          'expected': repr(expect), 'observed': repr(got), 'run': repr(ran), 'every_element_mapped_once': calls_ok})
+        if red in (first, last) and op != 'reduce' and got[0] == 'ok':
+            zid = lambda v: zids.setdefault(repr(tkey(v)), len(zids))
+            fl_cases.append('(%s, %s, %s, %s, %s)' % (listlit([zlit(zid(v)) for v in vals]), natlit(ms), natlit(rs),
+                                                      'true' if red is first else 'false', zlit(zid(got[1][0]))))
+            fl_meta.append({'falsy': {'op': op, 'reducer': red.__name__, 'values': exprs, 'map_step': ms, 'reduce_step': rs}})
+    ck.sample({'kind': 'falsy values', **(fl_meta[len(fl_meta) // 2] if fl_meta else {})})
+    chk = ('fun c => match c with (xs, ms, rs, pick_first, v) => '
+           'match mapreduce_value (if pick_first : bool then (fun a b : Z => a) else (fun a b : Z => b)) (fun x : Z => x) xs ms rs with '
+           '| MrValue y => Z.eqb y v | _ => false end end')
+    fails = ck.cases('mapreduce_selecting_reducers', 'From JugV Require Import Model.MapReduce.', 'list Z * nat * nat * bool * Z', chk, fl_cases)
+    for i in (fails or []):
+        ck.violation({'kind': 'correspondence', 'what': 'mapreduce with a selecting reducer over None / falsy values: model and jug.mapreduce disagree',
+                      'case': fl_meta[i], 'coq_case': fl_cases[i]})
+
     # ---- mappers with the same __qualname__ in two modules, plain and TaskGenerator-wrapped, over the same blocks in one store
     with jugrun.scratch_dir('twins') as d:
         mods = twin_modules(d)
@@ -705,6 +810,24 @@ def replay(obj):
         print('observed', got)
         print('expected', exp)
         return 0 if got == exp else 1
+    if 'falsy' in obj:
+        q = obj['falsy']
+        red = dict((r.__name__, r) for r, _ in FALSY_REDUCERS)[q['reducer']]
+        TABLE[:] = [ev(e) for e in q['values']]
+        vals = list(TABLE)
+        expect = obs_any(lambda: [functools.reduce(red, vals)])
+        if q['op'] == 'reduce':
+            t = jug.mapreduce.reduce(red, vals, reduce_step=q['reduce_step'])
+        elif q['op'] == 'mapreduce':
+            t = jug.mapreduce.mapreduce(red, lookup, list(range(len(vals))), map_step=q['map_step'], reduce_step=q['reduce_step'])
+        else:
+            t = jug.mapreduce.mapreduce(tg_first if red is first else tg_strict_concat, tg_lookup, list(range(len(vals))),
+                                        map_step=q['map_step'], reduce_step=q['reduce_step'])
+        ran = obs_any(lambda: (jugrun.run_all_sequential(), [])[1])
+        got = obs_any(lambda: [value(t)])
+        print('values', vals, 'reducer', q['reducer'])
+        print('expected', expect, 'observed', got, 'run', ran)
+        return 0 if (ran[0] == 'ok' and got[0] == expect[0] and (got[0] == 'err' or tkey(got[1][0]) == tkey(expect[1][0]))) else 1
     if 'twins' in obj:
         q = obj['twins']
         with jugrun.scratch_dir('twins') as d:
